@@ -365,6 +365,32 @@ def check_case(case, ctx):
                 elif pq.length != len(pq.body):
                     fails.append(Fail("plus-length", "+ on %r announced %d, sent %d bytes" % (selb, pq.length, len(pq.body))))
         if not inzip and not fails:
+            # the same items announced by a menu somebody wrote (a gophermap in another directory): there too an item's +INFO
+            # line in the '$' listing is its line in the plain listing
+            import os
+            lines = []
+            for k_, l in enumerate(plain):
+                f_ = l.split(b"\t")
+                if len(f_) >= 2 and f_[1] in by_sel and not re.search(rb"[\t\r\n]", f_[1]):
+                    lines.append(l[:1] + b"Announced %d\t" % k_ + f_[1] + b"\n")
+            if lines:
+                os.mkdir(os.path.join(root, "zzgm"))
+                with open(os.path.join(root, "zzgm", "gophermap"), "wb") as fp:
+                    fp.write(b"iA menu written by hand\n" + b"".join(lines))
+                rgp = drive.serve(cfg, clients.encode("gopher", b"/zzgm"))
+                rgd = drive.serve(cfg, clients.encode("gdollar", b"/zzgm"))
+                pgd = clients.parse_response("gdollar", rgd.response)
+                ctx.label("gophermap-menu")
+                if rgd.escaped is not None or not pgd.ok:
+                    fails.append(Fail("dollar-failed:gophermap", "$ listing of the gophermap menu failed: %r %r" % (rgd.response[:100], rgd.logs[-1:])))
+                else:
+                    gplain = [l for l in rgp.response.split(b"\r\n") if l]
+                    ginfos = [it_["infoline"] for it_ in _blocks(pgd.body) if "infoline" in it_]
+                    if ginfos != gplain:
+                        i = next((k for k, (a, b_) in enumerate(zip(ginfos, gplain)) if a != b_), min(len(ginfos), len(gplain)))
+                        fails.append(Fail("info-vs-menu:dollar:gophermap", "$ listing of a gophermap menu: +INFO #%d %r differs from plain menu line %r (%d vs %d)" % (
+                            i, ginfos[i:i + 1], gplain[i:i + 1], len(ginfos), len(gplain))))
+        if not inzip and not fails:
             fails += _after_expiry(case, root, dsel, pre, ctx)
         ctx.sample({"dir": dsel, "items": [{k: v for k, v in it.items() if k != "_len"} for it in case["items"]]}, cls=str(inzip))
         seen, out = set(), []
